@@ -1,6 +1,8 @@
 //! nbharness — runs request lines (one per stdin line: `<stream> <op> <arg>*`) against the
 //! real num-bigint built from /repo's working tree and prints one canonical result line each.
 mod wire;
+mod c19;
+mod c04;
 mod c20;
 mod c02;
 mod c13;
@@ -43,6 +45,8 @@ fn handlers() -> Vec<(&'static str, Handler)> {
         ("C13", c13::handle as Handler),
         ("C02", c02::handle as Handler),
         ("C20", c20::handle as Handler),
+        ("C04", c04::handle as Handler),
+        ("C19", c19::handle as Handler),
     ]
 }
 
